@@ -228,9 +228,10 @@ def r3_no_quant_totality(ctx):
       ctx.check(R, any(x.endswith('_get_params_for_no_quant_op') for x in body_calls), n.ast, gen, n.ast.test,
                 'the NO_QUANTIZE branch does not build all-NO_QUANTIZE params')
   ctx.check(R, seen_unknown and seen_noq, gen.node, gen, 'branches', 'cannot find the unknown-op / NO_QUANTIZE branches')
+  opvar = head.ast.target.elts[-1].id if isinstance(head.ast.target, ast.Tuple) else head.ast.target.id
   for c in noq_calls:
     args = [ast.unparse(a) for a in c.args]
-    ctx.check(R, len(args) == 3 and args[1] == 'op' and 'tensors' in args[2], c, gen, c, 'no-quant params are built for a different op/tensor list than the loop\'s own')
+    ctx.check(R, len(args) == 3 and args[1] == opvar and args[2].endswith('.tensors'), c, gen, c, 'no-quant params are built for a different op/tensor list than the loop\'s own')
   nq = ctx.repo.func('params_generator:ParamsGenerator._get_params_for_no_quant_op')
   ctx.instance(R)
   fl = [n for n in common.walk_no_nested(nq.node) if isinstance(n, ast.For)]
@@ -342,19 +343,19 @@ def r6_config_selection(ctx):
       srq = defuse.norm(st.test)
       break
   want = (srq or '').replace('op_quant_config', 'CFG').replace('qtyping.ComputePrecision', 'CP').replace('_ComputePrecision', 'CP')
-  found = []
-  for n in common.walk_no_nested(b.node):
-    if isinstance(n, ast.Assign) and any(isinstance(t, ast.Name) and t.id == 'is_constant' for t in n.targets):
-      found.append(defuse.norm(n.value).replace('op_info.op_quant_config', 'CFG').replace('_ComputePrecision', 'CP').replace('qtyping.ComputePrecision', 'CP'))
-  ctx.check(R, found and all(x == want for x in found), b.node, b, f'is_constant = {found}',
-            f'bias is treated as a constant under {found}, must be exactly the static-range predicate {want}')
   calls = [c for c in common.calls_in(b.node) if common.call_name(c).endswith('get_tensor_transformation_params')]
+  inl0 = defuse.Inliner(ctx.repo, max_depth=0)
+  found = []
   ok = False
   for c in calls:
-    kw = {k.arg: ast.unparse(k.value) for k in c.keywords}
-    if kw.get('is_constant') == 'is_constant' and kw.get('is_inbounding_tensor') == 'True':
+    kw = {k.arg: k.value for k in c.keywords}
+    if 'is_constant' in kw:
+      found.append(defuse.norm(inl0.inline(b, kw['is_constant'])).replace('op_info.op_quant_config', 'CFG').replace('_ComputePrecision', 'CP').replace('qtyping.ComputePrecision', 'CP'))
+    if 'is_inbounding_tensor' in kw and defuse.norm(kw['is_inbounding_tensor']) == 'True':
       ok = True
-  ctx.check(R, ok, b.node, b, 'bias transformation params', 'bias params must be built with is_inbounding_tensor=True and the SRQ-only constness')
+  ctx.check(R, found and all(x == want for x in found), b.node, b, f'is_constant = {found}',
+            f'bias is treated as a constant under {found}, must be exactly the static-range predicate {want}')
+  ctx.check(R, ok, b.node, b, 'bias transformation params', 'bias params must be built with is_inbounding_tensor=True')
 
 
 def r7_float_casting(ctx):
